@@ -116,8 +116,15 @@ def run_case(cli, case):
         for f in case["flags"]:
             args.append("--input=" + f)
         outp = os.path.join(d, "out.json")
+        stale = None
         if case["out_file"]:
             args.append("--output=" + outp)
+            # every other run finds an older, longer file at the output path: the outputs object must
+            # replace it entirely on success and leave it alone on failure
+            if (len(case.get("script") or "") + len(case["flags"])) % 2 == 0:
+                stale = "#stale output of an earlier run# " + "x" * 4096 + "\n"
+                with open(outp, "w") as f:
+                    f.write(stale)
         mode = case["mode"]
         stdin_data = case.get("stdin")
         if mode == "file":
@@ -140,6 +147,8 @@ def run_case(cli, case):
         if os.path.exists(outp):
             with open(outp, "rb") as f:
                 ftxt = f.read().decode("utf-8", "replace")
+            if stale is not None and ftxt == stale:
+                ftxt = None                                  # untouched: nothing was emitted
         return {"rc": rc, "stdout": out, "stderr": err, "file": ftxt}
     finally:
         shutil.rmtree(d, ignore_errors=True)
@@ -209,7 +218,8 @@ def contract_on_binary(case, r):
 
 # --------------------------------------------------------------------------- generators
 OUT_NAMES = ["a", "b", "c", "d", "res", "x_1", "total", "e1"]
-IN_KEYS = ["k", "m", "n", "value_1", "value_2", "f"]
+# "min", "sum": input fields named like a built-in function (#min is the field, never the function)
+IN_KEYS = ["k", "m", "n", "value_1", "value_2", "f", "min", "sum"]
 
 # (source, JSON value it serialises to)   — only modelled operators / built-ins
 VAL_EXPRS = [
@@ -427,7 +437,7 @@ class CaseGen:
 
 
 # --------------------------------------------------------------------------- the inputs probe
-PROBE_KEYS = IN_KEYS + ["zz"]
+PROBE_KEYS = IN_KEYS + ["zz", "round"]
 PROBE_SCRIPT = ("output ks = keys(inputs)\noutput iv = inputs\noutput h = [%s]\n"
                 "f = () => [#k, inputs.k, #value_1, inputs.value_1, #zz]\noutput hf = f()\n"
                 "output hd = do {\n  t = 1\n  return [#n, inputs.n, #value_2]\n}"
